@@ -57,8 +57,18 @@ const POS_NOUN_CONJ_B: &str = "名詞,普通名詞,一般,*,*,終止形";
 const POS_SYM_CONJ: &str = "補助記号,一般,*,*,活用甲,終止形";
 
 fn pos_choice() -> BoxedStrategy<(Pos, Option<bool>)> {
-    // present in the dictionary / absent, userPOS allow / forbid / missing
-    (prop_oneof![6 => select(vec![POS_NOUN, POS_SYM]), 1 => select(vec![POS_PLUGIN, POS_USER2]), 1 => select(vec![POS_NOUN_CONJ_A, POS_NOUN_CONJ_B, POS_SYM_CONJ])], select(vec![None, Some(true), Some(false)])).prop_map(|(p, u)| (pos_from_str(p), u)).boxed()
+    // present in the dictionary / absent, userPOS allow / forbid / missing; rarely an array of 0-5 or 7 components
+    // (prefix / extension of a dictionary POS), which no setting of userPOS makes acceptable
+    let malformed = (select(vec![POS_NOUN, POS_SYM]), prop_oneof![(0u8..6).prop_map(Some), Just(None)], select(vec![None, Some(true), Some(false)])).prop_map(|(p, k, u)| {
+        let mut pos = pos_from_str(p);
+        pos[5] = match k {
+            Some(k) => format!("{}{}", crate::model::cfg::POS_CUT, k),
+            None => crate::model::cfg::POS_EXT.to_string(),
+        };
+        (pos, u)
+    });
+    let regular = (prop_oneof![6 => select(vec![POS_NOUN, POS_SYM]), 1 => select(vec![POS_PLUGIN, POS_USER2]), 1 => select(vec![POS_NOUN_CONJ_A, POS_NOUN_CONJ_B, POS_SYM_CONJ])], select(vec![None, Some(true), Some(false)])).prop_map(|(p, u)| (pos_from_str(p), u));
+    prop_oneof![14 => regular, 1 => malformed].boxed()
 }
 
 /// (load must succeed?, is in the input class of known finding F6a?)
@@ -71,6 +81,9 @@ pub struct Verdict {
 
 /// `known`: parts of speech of the dictionary plus those registered by earlier plugins / lines
 fn pos_ok(known: &mut Vec<Pos>, pos: &Pos, user_pos: &Option<bool>) -> bool {
+    if crate::model::cfg::pos_malformed(pos) {
+        return false;
+    }
     if known.contains(pos) {
         return true;
     }
